@@ -714,9 +714,27 @@ func (e *Engine) run(fn *ssa.Function, entry *State, args []AbsVal) []exitState 
 			k = ek{x.at, retSig(x) + "|" + x.st.key(nil)} // the entry point's returns are judged individually
 		}
 		if m, ok := merged[k]; ok {
+			eM, lM := m.st.E, m.st.Lmin
 			m.st.joinInto(x.st, 0)
 			for j := range m.ret {
-				m.ret[j] = joinAbs(m.ret[j], x.ret[j], 0)
+				a, b := m.ret[j], x.ret[j]
+				// results that are look-ahead lengths of different kinds (constant, rune length, index)
+				isLen := func(v AbsVal) bool { return v.k == vIdx || v.k == vRuneLen }
+				if (isLen(a) || isLen(b)) && j < fn.Signature.Results().Len() && isPlainInt(fn.Signature.Results().At(j).Type()) {
+					if a.k == vInt {
+						a = m.st.idxOfIntsAt(a, eM, lM)
+					}
+					if b.k == vInt {
+						b = x.st.idxOfInts(b)
+					}
+					if a.k == vRuneLen {
+						a = runeLenIdx(a)
+					}
+					if b.k == vRuneLen {
+						b = runeLenIdx(b)
+					}
+				}
+				m.ret[j] = joinAbs(a, b, 0)
 			}
 		} else {
 			merged[k] = x
@@ -936,6 +954,18 @@ func (e *Engine) execBlock(fi *fnInfo, b *ssa.BasicBlock, start int, st *State,
 			e.aborted = "step budget exhausted"
 			return
 		}
+		if u, ok := b.Instrs[i].(*ssa.UnOp); ok && u.Op == token.MUL {
+			// tokenTable[c] for a per-byte table of an enumerated type with few candidate bytes: one state per
+			// byte, so that the token type stays correlated with the byte consumed
+			if outs := e.enumTableSplit(st, u); outs != nil {
+				for _, o := range outs {
+					if !o.dead {
+						e.execBlock(fi, b, i+1, o, edge, ret)
+					}
+				}
+				return
+			}
+		}
 		switch in := b.Instrs[i].(type) {
 		case *ssa.Phi:
 			// assigned on the edge
@@ -969,7 +999,12 @@ func (e *Engine) execBlock(fi *fnInfo, b *ssa.BasicBlock, start int, st *State,
 		case *ssa.Return:
 			var rv []AbsVal
 			for _, r := range in.Results {
-				rv = append(rv, e.eval(st, r))
+				v := e.eval(st, r)
+				if v.k == vTabInt {
+					// a table value leaves the function: the values the table has for the bytes still possible
+					v = tableValuesMasked(v.itable, v.mask, e.eval(st, v.tabX).byteSet())
+				}
+				rv = append(rv, v)
 			}
 			// A boolean result that is still an undecided comparison / table look-up / error test is decided
 			// here, in the callee's state, where the compared value is still known: the caller gets one exit per
@@ -1296,11 +1331,13 @@ func (e *Engine) load(st *State, x *ssa.UnOp) AbsVal {
 				return AbsVal{k: vTable, table: t, tabX: ia.Index}
 			}
 			if t := e.intTable(g); t != nil {
-				if _, named := x.Type().(*types.Named); !named {
-					// class bits: the link to the byte is kept so that a mask test refines it
-					return AbsVal{k: vTabInt, itable: t, tabX: ia.Index, mask: -1}
+				// class bits / per-byte classes / per-byte token types: the link to the byte is kept so that a
+				// mask test or a comparison with a class constant refines the byte
+				set := e.eval(st, ia.Index).byteSet()
+				if v := tableValues(t, set); v.k == vInt && len(v.ints) == 1 {
+					return v
 				}
-				return tableValues(t, e.eval(st, ia.Index).byteSet())
+				return AbsVal{k: vTabInt, itable: t, tabX: ia.Index, mask: -1}
 			}
 		}
 	}
@@ -1419,6 +1456,30 @@ func tableValues(t *[256]int64, set ByteSet) AbsVal {
 		return top
 	}
 	return intVal(vals...)
+}
+
+func tableValuesMasked(t *[256]int64, mask int64, set ByteSet) AbsVal {
+	var m [256]int64
+	for i := range t {
+		m[i] = t[i] & mask
+	}
+	return tableValues(&m, set)
+}
+
+// eqTable: the [256]bool table "table[c] & mask == k".
+func (e *Engine) eqTable(t *[256]int64, mask, k int64) *[256]bool {
+	e.itabMu.Lock()
+	defer e.itabMu.Unlock()
+	key := fmt.Sprintf("%p/%d==%d", t, mask, k)
+	if b, ok := e.derived[key]; ok {
+		return b
+	}
+	var b [256]bool
+	for i := range t {
+		b[i] = t[i]&mask == k
+	}
+	e.derived[key] = &b
+	return &b
 }
 
 // classTable: the [256]bool table "table[c] & mask != 0" (one object per (table, mask): tables are compared by identity).
@@ -1756,9 +1817,39 @@ func (e *Engine) cmp(st *State, a, b AbsVal, op token.Token, xv, yv ssa.Value) A
 			// l.r.Pos() compared with another mark: undecided, no refinement
 			return top
 		}
+	case vRuneLen:
+		if bConst {
+			// a rune is 1..4 bytes long
+			switch cmpAll(1, 4, op, int(kb)) {
+			case 1:
+				return boolVal(true)
+			case -1:
+				return boolVal(false)
+			}
+		}
 	case vTabInt:
-		if bConst && kb == 0 && (op == token.NEQ || op == token.EQL || op == token.GTR) {
-			return AbsVal{k: vTable, table: e.classTable(a.itable, a.mask), tabX: a.tabX, neg: op == token.EQL}
+		if bConst && (op == token.NEQ || op == token.EQL) {
+			tab := e.eqTable(a.itable, a.mask, kb)
+			// decided outright when the bytes still possible all agree
+			set := e.eval(st, a.tabX).byteSet()
+			allT, allF := true, true
+			for _, c := range set.members() {
+				if tab[c] {
+					allF = false
+				} else {
+					allT = false
+				}
+			}
+			if allT {
+				return boolVal(op == token.EQL)
+			}
+			if allF {
+				return boolVal(op == token.NEQ)
+			}
+			return AbsVal{k: vTable, table: tab, tabX: a.tabX, neg: op == token.NEQ}
+		}
+		if bConst && kb == 0 && op == token.GTR {
+			return AbsVal{k: vTable, table: e.classTable(a.itable, a.mask), tabX: a.tabX}
 		}
 	case vIdx:
 		if bConst {
